@@ -38,6 +38,9 @@ Table == {
   E("add", <<"x", "y">>, FALSE, {}), E("sub", <<"x", "y">>, FALSE, {}), E("mul", <<"x", "y">>, FALSE, {}), E("matvec", <<"A", "x">>, FALSE, {}),
   E("matmat", <<"A", "B">>, FALSE, {}), E("div_s", <<"x">>, FALSE, {}), E("mul_s", <<"x">>, FALSE, {}), E("rsub_s", <<"x">>, FALSE, {}),
   E("neg", <<"x">>, FALSE, {}), E("layer", <<>>, FALSE, {}),
+  E("mul_s_m", <<"A">>, FALSE, {}), E("rmul_s_m", <<"A">>, FALSE, {}), E("div_s_m", <<"A">>, FALSE, {}), E("add_s_m", <<"A">>, FALSE, {}),
+  E("rsub_s_m", <<"A">>, FALSE, {}), E("neg_m", <<"A">>, FALSE, {}), E("add_m", <<"A", "B">>, FALSE, {}), E("mul_m", <<"A", "B">>, FALSE, {}),
+  E("radd_s", <<"x">>, FALSE, {}), E("rmul_s", <<"x">>, FALSE, {}), E("sub_s", <<"x">>, FALSE, {}),
   \* the documented in-place operations
   E("set_core", <<"x">>, FALSE, {1}), E("reduce_dims", <<"x">>, FALSE, {1}), E("watch", <<"x">>, FALSE, {1}), E("unwatch", <<"x">>, FALSE, {1}) }
 
